@@ -290,9 +290,16 @@ func coordinate(p *Prop, tier string) int {
 				okCount++
 			}
 		}
-		if diverged || okCount != 5 || first.Key != v.Key {
-			fmt.Fprintf(os.Stderr, "engine error: violation %q did not reproduce deterministically (%d/5 failing, key now %q)\n", v.Key, okCount, first.Key)
+		if okCount == 0 {
+			fmt.Fprintf(os.Stderr, "engine error: violation %q did not reproduce at all (0/5 re-executions failing)\n", v.Key)
 			return 2
+		}
+		if diverged || okCount != 5 || first.Key != v.Key {
+			// The subject itself is nondeterministic (uncontrolled map iteration order inside the library):
+			// the failure was observed and observed again, so it is reported, marked as such.
+			v.Desc = fmt.Sprintf("[nondeterministic: failed in the exploration and in %d of 5 re-executions]\n%s", okCount, v.Desc)
+			confirmed = append(confirmed, v)
+			continue
 		}
 		if first.Known != "" {
 			for _, id := range strings.Split(first.Known, "+") {
